@@ -1027,11 +1027,6 @@ class SourceFinder(object):
             )
             source.a *= 3600  # arcseconds
             source.b *= 3600
-            # force a>=b
-            fix_shape(source)
-            # limit the pa to be in (-90,90]
-            source.pa = pa_limit(source.pa)
-
             # if one of these values are nan then there has been some problem
             # with the WCS handling
             if not all(
@@ -1054,6 +1049,12 @@ class SourceFinder(object):
 
             # Calculate errors for params that were fit (as well as int_flux)
             errors(source, model, global_data.wcshelper)
+
+            # force a>=b (after the errors have been calculated so that
+            # err_a/err_b are swapped along with a/b)
+            fix_shape(source)
+            # limit the pa to be in (-90,90]
+            source.pa = pa_limit(source.pa)
 
             source.flags = src_flags
             # add psf info
